@@ -1030,11 +1030,12 @@ def rule_fields(ctx):
     inst = {"written": written, "read (mandatory)": sorted(read_sub), "read (optional)": sorted(read_get)}
     r.instances.append(inst)
     where = f"{w.file}:{w.node.lineno}"
-    if set(written) <= read_sub | read_get and read_sub <= set(written):
+    optional_compared = read_get - {"doc"}    # `doc` is documentation only (not compared, not serialised)
+    if set(written) <= read_sub | read_get and read_sub <= set(written) and optional_compared <= set(written):
         r.ok()
     else:
         r.fail(Finding("R-FIELDS", "R-FIELDS|rules.Rule.to_json_like|keys", where,
-                       f"keys written {sorted(written)} must be read by from_spec (reads {sorted(read_sub | read_get)}) and every mandatory key {sorted(read_sub)} must be written", []))
+                       f"keys written {sorted(written)} must be read by from_spec (reads {sorted(read_sub | read_get)}) and every mandatory key {sorted(read_sub)} and every optional key that equality depends on {sorted(optional_compared)} must be written", []))
     for k, wantv in (("condition", "self.condition.to_json_like()"), ("path", "self.path.to_json_like()")):
         inst = {"field": k, "emitted": written.get(k)}
         r.instances.append(inst)
